@@ -13,24 +13,24 @@ META = {
             'object, double / missing operator delete, storage released with a live object), its contents and sizes equal the list '
             'specification, constructor calls minus destructor calls equals the number of elements, and after destroying the vectors nothing '
             'is alive and every block is freed exactly once; inline elements are aligned; heap elements are aligned when alignof(T) divides '
-            'the 16 bytes ::operator new guarantees.  REFUTED (concrete witnesses, also reproduced on the real code): heap storage for '
-            'alignof(T) > 16 comes from plain ::operator new and is under-aligned; push_back(v[i]) at size == capacity reads the element '
-            'after growToHeap destroyed it.  C38_holds_except states the full property on the complement of these two domains.',
+            'what the allocation function used guarantees (::operator new: 16; detail::alignedMalloc(bytes, alignof(T)) for alignof(T) > 16: '
+            'alignof(T)).  Two defects found by this check were repaired in /repo (fix: commits): under-aligned heap storage for alignof(T) > 16 '
+            'and push_back(v[i]) / resize(n, v[i]) reading the argument after growing destroyed it; the former refutation witnesses are now '
+            'regression Examples in Coq and regression cases replayed first on every run.',
     'note': 'Trusted: Coq kernel; harness/h_smallvec.cpp + harness/life_sv.h (registry-based lifetime tracking, replaced operator new/delete); '
             'hand-written model tied by the differential run only (no translator).  No axioms (Print Assumptions: closed).',
 }
 
 ASSUMPTIONS = [
     'memory is block-structured: distinct allocations and distinct vector objects never overlap (allocator / language contract), an element is (block, index); '
-    'addresses are only used for alignment; ::operator new returns 16-aligned blocks (__STDCPP_DEFAULT_NEW_ALIGNMENT__), nothing more',
+    'addresses are only used for alignment; ::operator new returns 16-aligned blocks (__STDCPP_DEFAULT_NEW_ALIGNMENT__), detail::alignedMalloc(bytes, a) '
+    'returns a-aligned blocks for a power of two a (its arithmetic is property C44), nothing more',
     'T\'s operations and ::operator new do not throw; counts stay below 2^64/sizeof(T) (newCap*sizeof(T) does not wrap: outside, growToHeap under-allocates '
     'silently where std::vector throws length_error -- observed: reserve(2^61+1) on SmallVector<int64_t,2> allocates 8 bytes and reports capacity 2^61+1)',
     'the vector object itself is placed at an address aligned to alignof(SmallVector) (checked by the harness: objmod = 0)',
     'history validity = std::vector preconditions: pop_back on non-empty, erase(begin()+i) with i < size, v[i] with i < size, no use of destroyed vector objects',
 ]
 
-KEY_ALIGN = 'heap-storage-underaligned-for-overaligned-T'
-KEY_SELF = 'push-back-self-reference-at-capacity'
 ALS = [8, 16, 32, 64]
 NS = [1, 2, 4, 8]
 
@@ -72,7 +72,7 @@ class Sim:
         return [k for k in range(self.K) if self.s[k] is None]
 
 
-def gen_ops(r, N, K, nops, allow_selfref_bad=False):
+def gen_ops(r, N, K, nops):
     """returns (tokens, reached_heap, nmoves)"""
     sim = Sim(N, K)
     toks = []
@@ -94,7 +94,7 @@ def gen_ops(r, N, K, nops, allow_selfref_bad=False):
             if live:
                 choices += ['Cc', 'Cm'] * 2
         if live:
-            choices += ['P'] * 10 + ['o'] * 3 + ['r', 'R', 'v', 'x', 'E', 'E', 's', 'D'] + ['Ac', 'Am'] * (2 if len(live) > 1 else 1)
+            choices += ['P'] * 10 + ['o'] * 3 + ['r', 'R', 'v', 'x', 'E', 'E', 's', 's', 'S', 'D'] + ['Ac', 'Am'] * (2 if len(live) > 1 else 1)
         o = r.choice(choices)
         if o in ('C', 'Cn', 'Cv', 'Ci', 'Cc', 'Cm'):
             k = r.choice(free)
@@ -186,14 +186,26 @@ def gen_ops(r, N, K, nops, allow_selfref_bad=False):
             elif o == 's':
                 if not v['l']:
                     continue
-                if len(v['l']) >= sim.cap(v) and not allow_selfref_bad:
-                    continue
+                if len(v['l']) < sim.cap(v) and r.random() < 0.5:     # aim at size == capacity: the argument aliases an element while growing
+                    while len(v['l']) < sim.cap(v):
+                        x = nv()
+                        sim.push(v, x)
+                        toks.append('P,0,%d,%d' % (k, x))
                 i = r.randrange(len(v['l']))
-                bad = len(v['l']) >= sim.cap(v)
                 sim.push(v, v['l'][i])
                 toks.append('s,%d,%d' % (k, i))
-                if bad:
-                    break   # everything after it is garbage on the implementation side
+            elif o == 'S':
+                if not v['l']:
+                    continue
+                i = r.randrange(len(v['l']))
+                n = r.choice([count(), sim.cap(v) + 1, 2 * sim.cap(v) + 1, len(v['l'])])
+                x = v['l'][i]
+                if n > len(v['l']):
+                    sim.ensure(v, n)
+                    v['l'] = v['l'] + [x] * (n - len(v['l']))
+                else:
+                    v['l'] = v['l'][:n]
+                toks.append('S,%d,%d,%d' % (k, n, i))
             elif o == 'D':
                 sim.s[k] = None
                 toks.append('D,%d' % k)
@@ -214,19 +226,19 @@ def selfref_case(r, N, grow_from_heap):
 def gen_cases(ctx):
     r = ctx.rng
     cases = []
-    # deterministic witnesses of the known findings first
-    cases.append({'A': 64, 'N': 2, 'off': 16, 'K': 1, 'toks': ['C,0', 'P,0,0,5', 'P,0,0,6', 'P,0,0,7'], 'tag': 'witness-align'})
-    cases.append({'A': 32, 'N': 1, 'off': -1, 'K': 1, 'toks': ['C,0', 'P,0,0,5', 'P,0,0,6'], 'tag': 'witness-align-native'})
-    cases.append({'A': 8, 'N': 2, 'off': -1, 'K': 1, 'toks': ['C,0', 'P,0,0,11', 'P,0,0,22', 's,0,0'], 'tag': 'witness-selfref'})
+    # regression cases first: the witnesses of the two repaired defects (fix: commits in /repo)
+    cases.append({'A': 64, 'N': 2, 'off': 16, 'K': 1, 'toks': ['C,0', 'P,0,0,5', 'P,0,0,6', 'P,0,0,7'], 'tag': 'regress-align'})
+    cases.append({'A': 32, 'N': 1, 'off': -1, 'K': 1, 'toks': ['C,0', 'P,0,0,5', 'P,0,0,6'], 'tag': 'regress-align-native'})
+    cases.append({'A': 8, 'N': 2, 'off': -1, 'K': 1, 'toks': ['C,0', 'P,0,0,11', 'P,0,0,22', 's,0,0'], 'tag': 'regress-selfref'})
+    cases.append({'A': 8, 'N': 2, 'off': -1, 'K': 1, 'toks': ['C,0', 'P,0,0,5', 'P,0,0,6', 'S,0,5,0'], 'tag': 'regress-selfref-resize'})
     n_rand = 220 if ctx.quick else 8000
     n_self = 16 if ctx.quick else 200
     for i in range(n_self):
-        A, N = r.choice(ALS[:2]), r.choice(NS)
-        if i % 2 == 0:
-            toks = selfref_case(r, N, i % 4 == 0)
-        else:
-            toks, _ = gen_ops(r, N, 2, r.randint(6, 20), allow_selfref_bad=True)
-        cases.append({'A': A, 'N': N, 'off': r.choice([-1, 0, 16]), 'K': 2, 'toks': toks, 'tag': 'selfref'})
+        A, N = r.choice(ALS), r.choice(NS)
+        toks = selfref_case(r, N, i % 2 == 0)
+        if i % 4 >= 2:
+            toks[-1] = 'S,0,%d,%s' % (r.choice([2 * N + 1, 4 * N + 1, 9 * N]), toks[-1].split(',')[2])
+        cases.append({'A': A, 'N': N, 'off': r.choice([-1, 0, 16, 48]), 'K': 2, 'toks': toks, 'tag': 'selfref'})
     for i in range(n_rand):
         A, N = ALS[i % 4], NS[(i // 4) % 4]
         K = r.choice([1, 2, 3, 3])
@@ -317,6 +329,8 @@ def coq_op(tok):
         return '(OErase %d %d)' % (a[0], a[1])
     if n == 's':
         return '(OPushSelf %d %d)' % (a[0], a[1])
+    if n == 'S':
+        return '(OResizeSelf %d %d %d)' % (a[0], a[1], a[2])
     raise ValueError(tok)
 
 
@@ -390,34 +404,25 @@ def run(ctx):
             nsteps += len(p['steps'])
             line = case_line(c)
             rep = {'case': line, 'cmd': 'echo "%s" | %s' % (line, exe), 'impl_output_final': p['fin'], 'impl_blocks(bytes,addr mod 64)': p['blocks']}
-            if v == 0 or v == 5:
+            if v == 0:
                 continue
             if v == 1:
                 ctx.broken.append('correspondence D(C38): implementation differs from the model (property still holds there) on: ' + line)
-            elif v in (3, 13):
-                worst = [s for s in p['full'] if len(s) > 5 and s[2] == 1 and s[3] > 0 and s[5] != 0]
-                rep['finding_key'] = KEY_ALIGN
-                ctx.violation('heap elements of SmallVector<T,%d> with alignof(T)=%d are at data() %% alignof(T) = %s: %s' % (
-                    c['N'], c['A'], worst[0][5] if worst else '!=0', line), rep)
-                if v == 13:
-                    ctx.broken.append('correspondence D(C38): implementation differs from the model (besides the known alignment finding) on: ' + line)
-            elif v == 4:
-                rep['finding_key'] = KEY_SELF
-                ctx.violation('push_back(v[i]) at size == capacity copies from the element after growToHeap destroyed it: ' + line, rep)
             elif v == 9:
                 ctx.broken.append('check C38: generated an invalid case: ' + line)
             else:
-                ctx.violation('SmallVector violates C38 (contents/size vs std::vector, lifetimes, or alignment with alignof(T) <= 16 / inline): ' + line, rep)
+                bad_al = [s for s in p['full'] + [x for _, sl in p['steps'] for x in sl] if len(s) > 5 and s[3] > 0 and s[5] != 0]
+                what = ('elements misaligned: data() %% alignof(T) = %d (heap bit %d)' % (bad_al[0][5], bad_al[0][2])) if bad_al else \
+                    'contents/size differ from std::vector, or a lifetime error (flags / constructor-destructor balance / blocks)'
+                ctx.violation('SmallVector<T,%d> (alignof(T)=%d) violates C38: %s: %s' % (c['N'], c['A'], what, line), rep)
     ctx.phase('judge')
-    names = {0: 'agree_and_property_holds', 1: 'differs_but_property_holds', 2: 'property_fails', 3: 'known:heap_underaligned(model agrees)',
-             13: 'known:heap_underaligned(model differs)', 4: 'known:selfref_at_capacity reproduced', 5: 'selfref_at_capacity but implementation behaved',
-             9: 'invalid_case'}
+    names = {0: 'agree_and_property_holds', 1: 'differs_but_property_holds', 2: 'property_fails', 9: 'invalid_case'}
     ctx.cov['verdict_histogram'] = {names.get(k, str(k)): v for k, v in sorted(hist.items())}
-    ctx.cov['traces_validated_against_impl'] += hist.get(0, 0) + hist.get(3, 0)
+    ctx.cov['traces_validated_against_impl'] += hist.get(0, 0)
     ctx.cov['operations_compared'] = nsteps
     distinct = set(case_line(c) for c, p in kept if any(b for b in p['blocks']))
     ctx.cov['distinct_nontrivial'] += len(distinct)
-    ctx.cov['rule'] = ('random histories (4..28 ops, runs of pushes across the inline->heap and doubling boundaries, counts at N-1/N/N+1/2N/2N+1/4N+1) over 1..3 '
+    ctx.cov['rule'] = ('random histories (4..28 ops, runs of pushes across the inline->heap and doubling boundaries, counts at N-1/N/N+1/2N/2N+1/4N+1, push_back(v[i]) and resize(n, v[i]) at size == capacity) over 1..3 '
                        'vector objects x alignof(T) in {8,16,32,64} x N in {1,2,4,8} x allocator placement {native malloc, == 0/16/32/48 mod 64}; every step compares '
                        'counters, size, capacity, heap bit, data() mod alignof(T), contents.  Non-trivial = at least one heap allocation happened; distinct = distinct case lines')
     by_an = {}
